@@ -2,10 +2,13 @@ package pgsess
 
 // Additions for property C09 (equality search over protected columns): the fake database infers the types of
 // placeholders that stand inside an ON clause, and evaluates an uncorrelated <column> IN (SELECT <column> FROM ...
-// [WHERE ...]) condition. fakedb.go calls in at three places (inferParams twice, evalCond once).
+// [WHERE ...]) condition; it evaluates IS [NOT] DISTINCT FROM (null-safe comparison) and reads derived tables
+// ((SELECT ...) AS alias in a FROM clause). fakedb.go calls in at five places (inferParams twice, evalCond twice,
+// scopeOf once).
 
 import (
 	"bytes"
+	"strings"
 
 	pg_query "github.com/cossacklabs/pg_query_go/v5"
 )
@@ -62,4 +65,45 @@ func (x *execCtx) evalSubLink(sc *scope, row map[*table][]Value, sl *pg_query.Su
 		}
 	}
 	return false, nil
+}
+
+// distinctFrom evaluates the null-safe comparisons <a> IS DISTINCT FROM <b> / <a> IS NOT DISTINCT FROM <b> (the
+// parser gives both the operator name "=", they differ from a plain comparison by the kind of the A_Expr):
+// two NULLs are not distinct, a NULL and a value are. ok is false for every other kind of expression.
+func distinctFrom(e *pg_query.A_Expr, l, r Value) (res, ok bool) {
+	var same bool
+	switch {
+	case l.Null || r.Null:
+		same = l.Null && r.Null
+	default:
+		same = bytes.Equal(l.B, r.B)
+	}
+	switch e.Kind {
+	case pg_query.A_Expr_Kind_AEXPR_NOT_DISTINCT:
+		return same, true
+	case pg_query.A_Expr_Kind_AEXPR_DISTINCT:
+		return !same, true
+	}
+	return false, false
+}
+
+// addDerived puts a derived table - (SELECT <columns> FROM ... [WHERE ...]) AS <alias> in a FROM clause - into the
+// scope: the sub-select is evaluated (it may not hold placeholders) and its result becomes a table named by the alias.
+// A sub-select the fake database cannot evaluate is left out of the scope (its columns "do not exist" then).
+func (s *Store) addDerived(sc *scope, rs *pg_query.RangeSubselect) {
+	sub := rs.GetSubquery().GetSelectStmt()
+	if sub == nil || rs.Alias == nil || rs.Alias.Aliasname == "" {
+		return
+	}
+	res, err := (&execCtx{s: s}).sel(sub)
+	if err != nil {
+		return
+	}
+	name := strings.ToLower(rs.Alias.Aliasname)
+	t := &table{def: TableDef{Name: name}, rows: res.Rows}
+	for _, f := range res.Fields {
+		t.def.Cols = append(t.def.Cols, ColumnDef{Name: f.Name, Type: f.Type})
+	}
+	sc.tabs = append(sc.tabs, t)
+	sc.names = append(sc.names, name)
 }
